@@ -76,10 +76,25 @@ def cases(tier, seed):
                     c1 = dict(tree=tree, prod=prod, style="cpt", nary=n1, kin=k1, ksum=k1, kout=1, inp="emb", numbering="id")
                     c2 = dict(c1, nary=n2, kin=k2, ksum=k2)
                     yield {"mode": "pair", "c1": c1, "c2": c2, "vk": "generic"}
+    # (d') heterogeneous arities: arity-1 sum over one product x arity-2 sum over two products with the same partition
+    for t in A.single_trees([0, 1]) + A.single_trees([0, 1, 2]):
+        if isinstance(t, int):
+            continue
+        for dup in (("M", [t[1], t[1]]), ("M", [t[1], list(reversed(t[1]))])):
+            for prod in ["had", "kro"]:
+                for k1, k2 in itertools.product(ks, ks):
+                    for nary in ["dense", "mixing"]:
+                        for inp in (["emb", "cat-logits"] if (k1, k2) == (2, 2) else ["emb"]):
+                            ca = dict(tree=t, prod=prod, style="cpt", nary="dense", kin=k1, ksum=k1, kout=1, inp=inp, numbering="id")
+                            cb = dict(tree=dup, prod=prod, style="cpt", nary=nary, kin=k2, ksum=k2, kout=1, inp=inp, numbering="id")
+                            vk = "generic" if inp == "emb" else "monotone"
+                            yield {"mode": "pair", "c1": ca, "c2": cb, "vk": vk}
+                            yield {"mode": "pair", "c1": cb, "c2": ca, "vk": vk}
     # single variable with an n-ary sum over two input layers (arity-2 sums without any product)
     for k1, k2 in itertools.product(ks, ks):
         for inp in ["emb", "cat-logits", "gau", "poly1"]:
-            yield {"mode": "pair-flat", "k1": k1, "k2": k2, "inp": inp, "vk": "generic" if inp in ("emb", "poly1") else "monotone"}
+            for a1, a2 in [(2, 2), (1, 2), (2, 1), (3, 2)]:
+                yield {"mode": "pair-flat", "k1": k1, "k2": k2, "a1": a1, "a2": a2, "inp": inp, "vk": "generic" if inp in ("emb", "poly1") else "monotone"}
     # (e) operands conditioned by evidence; product with an integral
     for tree in A.REPRESENTATIVE_TREES[:2] + [("P", [0, 1])]:
         for prod in ["had", "kro"]:
@@ -90,16 +105,16 @@ def cases(tier, seed):
                     yield {"mode": "int-square", "c1": c, "z": [ov], "vk": "monotone"}
 
 
-def flat_spec(k, inp):
-    a = A.input_spec(inp, 0, k, 0)
-    b = A.input_spec(inp, 0, k, 0)
-    return {"layers": [a, b, {"t": "sum", "in": [0, 1], "k": k, "w": "dense"}], "outputs": [2]}
+def flat_spec(k, inp, arity=2):
+    ins = [A.input_spec(inp, 0, k, 0) for _ in range(arity)]
+    return {"layers": ins + [{"t": "sum", "in": list(range(arity)), "k": k, "w": "dense"}], "outputs": [arity]}
 
 
 def pipeline_of(case):
     m = case["mode"]
     if m == "pair-flat":
-        return {"circuits": [flat_spec(case["k1"], case["inp"]), flat_spec(case["k2"], case["inp"])], "ops": [{"op": "multiply", "args": [0, 1]}]}, [2]
+        return {"circuits": [flat_spec(case["k1"], case["inp"], case.get("a1", 2)), flat_spec(case["k2"], case["inp"], case.get("a2", 2))],
+                "ops": [{"op": "multiply", "args": [0, 1]}]}, [2]
     s1 = pools.spec_from(case["c1"])
     if s1 is None:
         return None, None
